@@ -1,4 +1,4 @@
-import ScrutModel.Lemmas.Markdown
+import ScrutModel.Lemmas.MarkdownWF
 /-!
 # C06 — Markdown: every scrut block becomes exactly one test; nothing is dropped
 
@@ -16,15 +16,29 @@ Proved here, for **all** documents (no bound on the number or length of lines, a
 * `C06_unterminated_*` – an unterminated front-matter / foreign block / scrut block yields one
   token that holds all remaining lines.
 
-Full-strength statement that is *not* a theorem of the current code (kept visible):
+* `C06_wellformed` – for every document that is a sequence of prose lines (any line that is not a
+  fence start and not `---`: blank, text, headings, lines that merely start with one or two
+  backticks, …) and scrut blocks (fence of any length ≥ 3 with optional `{…}`, comment lines, `$`
+  line, `>` lines, expectation lines, optional exit code line, closing fence): the parser succeeds
+  and yields exactly `expectedTests`: one test per block, in order, with shell expression,
+  expectation texts, exit code, inline configuration, 1-based line number of the `$` line and the
+  title as the code defines it (run of heading/paragraph lines not yet used by a test);
+* `C06_wellformed_lines`, `C06_wellformed_cores`, `C06_prose_inert` – consequences that do not
+  mention `expectedTests`' title bookkeeping: every line number is that of a `$` line; count, order and content of the tests are those of the blocks as written; inserting a
+  prose line anywhere between items changes neither count, order nor content.
 
-    theorem C06_wellformed (d : Doc) (wf : d.WF) : parseMarkdown env (render d) = .ok d.tests
+Not in the proved grammar (decided for generated documents by the by-construction oracle of the
+harness, streams `ast-by-construction` / `ast-prefixes`): front-matter, foreign code blocks between
+the items, blocks without command, an exit code line between expectation lines, expectation lines
+that start with `> `.  For those the full-strength statement stays
 
-for `Doc` = the generator AST of `harness/src/markdown.rs` (every item kind).  It is decided for the
-generated documents by the by-construction oracle of the harness (streams `ast-by-construction`,
-`ast-prefixes`), not proved here.  Four readings of the property that the code did not implement
-when this check first ran (harness classes `C06:state-leak`, `C06:bare-long-fence`,
-`C06:info-string-whitespace`, `C06:config-dropped`) have been repaired by `fix:` commits; the
+    theorem C06_wellformed_full (d : Doc) (wf : d.WF) : parseMarkdown env (render d) = .ok d.tests
+
+with `Doc` = the generator AST of `harness/src/markdown.rs`; it is not proved.
+
+Readings of the property that the code did not implement when this check first ran (harness
+classes `C06:state-leak`, `C06:bare-long-fence`, `C06:info-string-whitespace`,
+`C06:config-dropped`, `C06:expectation-before-command`) have been repaired by `fix:` commits; the
 model follows the repaired code, the former witnesses are kept below as closed examples and in
 the harness stream `reading-witnesses`.
 -/
@@ -68,6 +82,45 @@ theorem C06_unterminated_test (languages : List Line) (cs : Bool) (li : Nat)
       ∧ comments ++ code = number (li + 1) body :=
   unterminated_test languages cs li opener bt language config body hx hl hb
 
+/-- **Well-formed documents**: every scrut block becomes exactly one test, in document order, with
+exactly the shell expression, expectation lines, exit code, inline configuration, line number and
+title that are written; the prose around the blocks creates, hides and truncates nothing. -/
+theorem C06_wellformed (env : Env) (items : List Item) (wf : ∀ it ∈ items, it.WF env) :
+    parseLines env (render items) = .ok { docConfigs := [], tests := expectedTests env items 0 none [] } :=
+  parseLines_render env items wf
+
+/-- the same for the text of the document -/
+theorem C06_wellformed_text (env : Env) (text : List Char) (items : List Item)
+    (h : splitLines text = render items) (wf : ∀ it ∈ items, it.WF env) :
+    parseMarkdown env text = .ok { docConfigs := [], tests := expectedTests env items 0 none [] } := by
+  unfold parseMarkdown
+  rw [h]
+  exact parseLines_render env items wf
+
+/-- count, order and content of the tests are those of the blocks as written -/
+theorem C06_wellformed_cores (env : Env) (items : List Item) :
+    (expectedTests env items 0 none []).map TestCase.core = writtenCores items :=
+  expectedTests_core env items 0 none []
+
+/-- every reported line number is the 1-based number of a line `$ <first command line>` of the
+document -/
+theorem C06_wellformed_lines (env : Env) (items : List Item) :
+    ∀ x ∈ expectedTests env items 0 none [],
+      0 < x.lineNumber ∧ (render items)[x.lineNumber - 1]? = some ('$' :: ' ' :: x.command.headD []) := by
+  intro x hx
+  simpa using expectedTests_lines env items 0 none [] x hx
+
+/-- Inserting a prose line (not a fence start *by the code's definition*, not `---`) between the
+items of a well-formed document: the document stays parseable and count, order and content
+(command, expectations, exit code, configuration) of its tests are unchanged – only line numbers
+and titles may move. -/
+theorem C06_prose_inert (env : Env) (pre post : List Item) (p : Line)
+    (wf : ∀ it ∈ pre ++ post, it.WF env) (hp : Item.WF env (.prose p)) :
+    ∃ ts ts', parseLines env (render (pre ++ post)) = .ok { docConfigs := [], tests := ts } ∧
+      parseLines env (render (pre ++ .prose p :: post)) = .ok { docConfigs := [], tests := ts' } ∧
+      ts'.map TestCase.core = ts.map TestCase.core :=
+  prose_inert env pre post p wf hp
+
 /-! ## non-vacuity and witnesses -/
 
 /-- an environment for closed examples: ASCII letters, every expectation and YAML text accepted -/
@@ -81,6 +134,27 @@ def scrutFence : Line := "```scrut".toList
 example : extractCodeBlockStart ['`', '`', '`', 's', 'c', 'r', 'u', 't']
     = .ok (some (['`', '`', '`'], ['s', 'c', 'r', 'u', 't'], [])) := by rfl
 
+/-- a block for the non-vacuity of `Block.WF`: "```scrut {a}", "# c", "$ x", "> y", "o", "[7]", "```" -/
+def exampleBlock : Block :=
+  { opener := ['`', '`', '`', 's', 'c', 'r', 'u', 't', ' ', '{', 'a', '}'], bt := ['`', '`', '`'],
+    language := ['s', 'c', 'r', 'u', 't'], config := ['{', 'a', '}'], comments := [['#', ' ', 'c']],
+    cmd := ['x'], more := [['y']], exps := [['o']], exit := some (['[', '7', ']'], 7) }
+
+/-- the hypotheses of `C06_wellformed` are satisfiable: a heading, a backtick-led prose line and
+the block above -/
+example : ∀ it ∈ [Item.prose ['#', ' ', 'T'], .prose ['`', '`', 'x', '`', '`'], .block exampleBlock],
+    it.WF envAll := by
+  intro it hit
+  simp only [List.mem_cons, List.not_mem_nil, or_false] at hit
+  rcases hit with rfl | rfl | rfl
+  · exact ⟨rfl, by decide⟩
+  · exact ⟨rfl, by decide⟩
+  · exact ⟨rfl, rfl, rfl, by decide, by decide, by decide, rfl⟩
+
+example : expectedTests envAll [.prose ['#', ' ', 'T'], .prose ['`', '`', 'x', '`', '`'], .block exampleBlock] 0 none []
+    = [{ title := ['T'], command := [['x'], ['y']], exitCode := some 7, expectations := [['o']],
+         lineNumber := 5, config := some (some ['a']) }] := by rfl
+
 /-- a normal document: title, comment, command, expectation, exit code, 1-based line of the `$` -/
 theorem C06_example_document :
     parseLines envAll
@@ -90,13 +164,13 @@ theorem C06_example_document :
         [{ title := ['T'], command := [['x']], exitCode := some 7, expectations := [['o']],
            lineNumber := 5, config := some none }] } := by rfl
 
-/-- Repaired by fix 0c1f918 (was harness class `C06:state-leak`): a block that holds only `[1]` is
-rejected; its exit code is not handed to the test of the next block. -/
+/-- Repaired by fixes 0c1f918 / 67abd12 (was harness class `C06:state-leak`): a block that holds
+only `[1]` is rejected at that line; its exit code is not handed to the test of the next block. -/
 theorem C06_exit_code_without_command_rejected :
     parseLines envAll
       [['`', '`', '`', 's', 'c', 'r', 'u', 't'], ['[', '1', ']'], ['`', '`', '`'],
        ['`', '`', '`', 's', 'c', 'r', 'u', 't'], ['$', ' ', 'x'], ['`', '`', '`']]
-    = .error (.lineParser (.exitCodeWithoutCommand 2)) := by rfl
+    = .error (.lineParser (.bodyWithoutCommand 2)) := by rfl
 
 /-- Repaired by fix d82a4b7 (was `C06:bare-long-fence`): a line of four backticks opens a code
 block without language (which `parse` then reports like the bare "```"). -/
